@@ -33,6 +33,13 @@ func genC23(g *Gen, tier string, w *bufio.Writer) {
 	for i := 0; i < 60*mul; i++ {
 		fmt.Fprintln(w, jsonOp(g.U64()>>1, genJSONDoc(g, g.Intn(12), true)))
 	}
+	// nested values beyond the preview with one element / field replaced at the first, a middle, the last position
+	// (quick: every 4th of the non-fitting cases; C24 runs all of them)
+	every := 4
+	if thorough {
+		every = 1
+	}
+	genPositional(g, every, func(op string) { fmt.Fprintln(w, op) })
 	for i := 0; i < 10*mul; i++ { // late rows with foreign kinds / extra / missing keys
 		fmt.Fprintln(w, jsonOp(g.U64()>>1, genJSONDoc(g, 100+g.Intn(60), false)))
 	}
@@ -137,13 +144,14 @@ func genC23(g *Gen, tier string, w *bufio.Writer) {
 }
 
 // driveFiles: ops shared by C23 and C24
-//   json <renderseed> <n> row…                          rows are jo… objects
-//   csv <renderseed> <c|t> <h|n> <ncols> <name hex>… <nrows> cell…   (a row of another length is prefixed by r<k>)
-//   lines <s<sephex>|-> c<contenthex>
-//   stdin <chunkseed> <extra previews> <one of the above>
-//   jsonq <delayseed> <n>
-//   ints <hex> | bools <hex>                             the cell parsers (C24)
-//   rawjson|rawcsv|rawtsv <contenthex>                  (probes)
+//
+//	json <renderseed> <n> row…                          rows are jo… objects
+//	csv <renderseed> <c|t> <h|n> <ncols> <name hex>… <nrows> cell…   (a row of another length is prefixed by r<k>)
+//	lines <s<sephex>|-> c<contenthex>
+//	stdin <chunkseed> <extra previews> <one of the above>
+//	jsonq <delayseed> <n>
+//	ints <hex> | bools <hex>                             the cell parsers (C24)
+//	rawjson|rawcsv|rawtsv <contenthex>                  (probes)
 func driveFiles(toks []string) string {
 	switch toks[0] {
 	case "json", "csv", "lines":
